@@ -27,6 +27,9 @@ func init() {
 		"encoding/xml.Unmarshal": extHavocAll,
 		"(*encoding/xml.Decoder).Token": extToken,
 		"encoding/xml.NewDecoder": extNewDecoder,
+		"(*encoding/xml.Encoder).Encode":        extEncode,
+		"(*encoding/xml.Encoder).EncodeElement": extEncode,
+		"(*encoding/xml.Encoder).EncodeToken":   extEncodeToken,
 	}
 	for _, n := range []string{"HasPrefix", "HasSuffix", "Contains", "TrimSpace", "TrimPrefix", "TrimSuffix", "ToLower", "ToUpper", "ReplaceAll", "Index", "Count", "Repeat", "EqualFold", "LastIndex", "Title"} {
 		externals["strings."+n] = extPureUF("strings_" + n)
@@ -213,4 +216,36 @@ func extToken(f *frame, cm *ssa.CallCommon, args []Val, st *State, name string, 
 	st.heaps[h] = nr
 	c.assumed["(*xml.Decoder).Token: total; on success returns one of the six token kinds and consumes one of finitely many remaining tokens (ghost counter); on error the token is nil"] = true
 	return r
+}
+
+
+// xml encoder: ghost sequence of the values handed to Encode/EncodeElement that were accepted
+// (shared by all encoders; a MarshalXML method under contract talks about the part it appended).
+func encHeaps(g *Gen) (n, seq string) {
+	n, seq = "G_ghost_encn", "G_ghost_encseq"
+	g.TE.noteHeapRaw(n, SInt)
+	g.TE.noteHeapRaw(seq, "(Array Int Iface)")
+	return
+}
+
+func extEncode(f *frame, cm *ssa.CallCommon, args []Val, st *State, name string, resT types.Type, pos token.Pos) Val {
+	c := f.c
+	g := c.g
+	nH, seqH := encHeaps(g)
+	r := f.freshResult(resT, st, name)
+	v := args[1].T
+	if !isIface(cm.Args[1].Type()) {
+		v = g.makeIface(v, cm.Args[1].Type())
+	}
+	n, seq := st.Heap(nH), st.Heap(seqH)
+	ok := fmt.Sprintf("(= (itag %s) 0)", r.T)
+	st.heaps[seqH] = c.define("encseq", "(Array Int Iface)", fmt.Sprintf("(ite %s (store %s %s %s) %s)", ok, seq, n, v, seq))
+	st.heaps[nH] = c.define("encn", SInt, fmt.Sprintf("(ite %s (+ %s 1) %s)", ok, n, n))
+	c.assumed["(*xml.Encoder).Encode/EncodeElement: total, may fail; when it succeeds the value has been written after everything written before (ghost sequence); it writes no document memory"] = true
+	return r
+}
+
+func extEncodeToken(f *frame, cm *ssa.CallCommon, args []Val, st *State, name string, resT types.Type, pos token.Pos) Val {
+	f.c.assumed["(*xml.Encoder).EncodeToken: total, may fail, writes no document memory"] = true
+	return f.freshResult(resT, st, name)
 }
